@@ -138,6 +138,7 @@ def step(active: bool, peer_gone: bool, ack: bool, quiet: bool, cnt: int, wt: in
     """
     pre: 0 <= k < len(KINDS) and 0 <= hbh < 2**32 and 0 <= e2e < 2**32 and 0 <= cnt <= 10**6 and 1 <= wt <= 10**6
     pre: admit(active=active, peer_gone=peer_gone, has_send=has_send, has_msg=has_msg, k=k, quiet=quiet, cnt=cnt, wt=wt, state=P["state"], role=P["role"])
+    pre: not P.get("pend") or (hbh == 0x01020304 and e2e == 0x0a0b0c0d)
     post: _
     """
     role, state = P["role"], P["state"]
@@ -145,6 +146,23 @@ def step(active: bool, peer_gone: bool, ack: bool, quiet: bool, cnt: int, wt: in
         node = Node(role)
         node.force_state(state)
     a, t = node.assoc, node.transport
+    pend = P.get("pend")
+    if pend:
+        # the association's answer-matching registries in each shape an inbound message can meet (identifiers are dict keys
+        # there, hence concrete in these queries): "match" - a request with these identifiers is outstanding; "dup" - it was,
+        # and its answer has been consumed already (a retransmitted answer); "hbh_only" / "e2e_only" - one half is known
+        with untraced():
+            req = build("dwr_ok")
+            req.header.hop_by_hop, req.header.end_to_end = (0x01020304).to_bytes(4, "big"), (0x0a0b0c0d).to_bytes(4, "big")
+            other = build("dwr_ok")
+            other.header.hop_by_hop, other.header.end_to_end = (0x01020304).to_bytes(4, "big"), (0x0b0b0b0b).to_bytes(4, "big")
+            if pend in ("match", "dup", "e2e_only"):
+                a.end_to_end_identifiers.append(req.header.end_to_end.hex())
+            if pend == "match":
+                a.pending_requests[req.header.hop_by_hop.hex()] = req
+            if pend == "hbh_only":
+                a.end_to_end_identifiers.append(other.header.end_to_end.hex())
+                a.pending_requests[other.header.hop_by_hop.hex()] = other
     a.state_is_active = active
     t._stop_threads = peer_gone
     t.events = []
@@ -175,9 +193,9 @@ def step(active: bool, peer_gone: bool, ack: bool, quiet: bool, cnt: int, wt: in
     before = len(b"".join(node.sock.sent))
     try:
         node.tick()
-    except LIB as e:
+    except (LIB + (Exception,)) as e:           # "no input makes the state machine raise or stop ticking"
         reached()
-        if REPLAY: note(raised=type(e).__name__, state=state, kind=kind)
+        if REPLAY: note(raised=f"{type(e).__name__}: {e}", state=state, kind=kind, pend=pend)
         return False
     reached()
     idle_fire = state == OPEN and quiet and cnt >= wt
@@ -297,6 +315,14 @@ def queries(tier, seed):
             qs.append(Q(f"step/{role}/{st.replace('/', '_')}", "step", {"role": role, "state": st}, cto=t, pto=t,
                         what=f"{role} in {st}: one tick from every pre-state (stop / disconnect / ack flags, idle counters, queued outbound, "
                              f"inbound head over {len(KINDS)} kinds with symbolic identifiers) vs the reference transition function"))
+    for role, st in (("CLIENT", OPEN), ("SERVER", OPEN), ("CLIENT", WICEA), ("CLIENT", CLOSING)):
+        for pend in ("match", "dup", "hbh_only", "e2e_only"):
+            if tier == "quick" and (role, st, pend) not in (("CLIENT", OPEN, "dup"), ("SERVER", OPEN, "match"), ("SERVER", OPEN, "dup"), ("CLIENT", WICEA, "dup"),
+                                                             ("CLIENT", OPEN, "hbh_only"), ("CLIENT", CLOSING, "dup")):
+                continue
+            qs.append(Q(f"step/{role}/{st.replace('/', '_')}/pending-{pend}", "step", {"role": role, "state": st, "pend": pend}, cto=t, pto=t,
+                        what=f"{role} in {st}: the same one-tick query with the association's pending-request registries in shape '{pend}' "
+                             f"relative to the inbound message's identifiers (outstanding / already answered = retransmitted answer / half known)"))
     for role in ("CLIENT", "SERVER"):
         qs.append(Q(f"watchdog_cadence/{role}", "watchdog_cadence", {"role": role}, cto=t, pto=t,
                     what=f"{role}: idle Open connection over two ticks, all idle counters / timeouts / gaps: one DWR per full idle period"))
@@ -308,7 +334,7 @@ def queries(tier, seed):
 
 BOUNDS = ["7 states x 2 roles; inbound alphabet of 17 message kinds (valid / wrong host / wrong realm / missing AVP / wrong flags CER, CEA, DWR, DWA, "
           "DPR by cause, DPA, application request / misaddressed / answer) with symbolic Hop-by-Hop and End-to-End", "idle counter and watchdog timeout: all values 0..10^6",
-          "one inbound message at the head of the queue, 0..1 queued outbound message", "multi-step walks of 3 (quick) / 5 events from Closed over an 8-kind alphabet + local stop + idle tick"]
+          "one inbound message at the head of the queue, 0..1 queued outbound message", "pending-request registries: empty (identifiers symbolic) and four shapes relative to the inbound identifiers (identifiers concrete)", "multi-step walks of 3 (quick) / 5 events from Closed over an 8-kind alphabet + local stop + idle tick"]
 OUTSIDE = ["the two unimplemented election states are only checked to be absorbing and silent", "SCTP", "real timers (time.sleep stubbed)",
            "combinations listed as open known findings (local stop / peer disconnect coinciding with queued traffic)"]
 ASSUMPTIONS = ["reference transition function reference() transcribed from the property text", "stand-in transport; connect nack modelled by test_connection() == False"]
